@@ -277,6 +277,65 @@ pub fn templates() -> Vec<Template> {
         });
     }
 
+    // 4b. a compile step with a generated implicit input and, ordered only,
+    //     a generated header that it then reports as a dependency
+    {
+        let mut obj = st("obj", "CC", vec![e("src.c"), imp("cfg.h"), oo("gen.h")]);
+        obj.depfile = Some("obj.d".into());
+        let base = Project {
+            steps: vec![st("cfg.h", "CFG", vec![e("cfg.in")]), st("gen.h", "GEN", vec![e("gen.in")]), obj, st("bin", "LD", vec![e("obj")])],
+            ..Default::default()
+        };
+        let mut reordered = base.clone();
+        reordered.steps.swap(0, 1);
+        out.push(Template {
+            name: "two-generated-headers",
+            variants: vec![base, reordered],
+            manifest_name: "build.ninja".into(),
+            headers: vec![],
+            reports: [("obj".to_string(), vec!["gen.h".to_string()])].into_iter().collect(),
+            report_options: vec![],
+            restat_like: vec![],
+            targets: vec![vec!["obj".into()]],
+            fail_cmds: vec!["GEN".into()],
+            generator: false,
+            removable_sources: vec![],
+            variant_reports: BTreeMap::new(),
+            skip_outputs: vec![],
+            side_touch: BTreeMap::new(),
+        });
+    }
+
+    // 3b. two consumers that each use both outputs of one step
+    {
+        let p = Step {
+            outs: vec!["p1".into(), "p2".into()],
+            cmdline: "P".into(),
+            ins: vec![e("p.in")],
+            ..Default::default()
+        };
+        let base = Project {
+            steps: vec![p, st("x", "X", vec![e("p1"), e("p2"), e("x.in")]), st("y", "Y", vec![e("p1"), e("p2"), e("y.in")])],
+            ..Default::default()
+        };
+        out.push(Template {
+            name: "two-by-two",
+            variants: vec![base],
+            manifest_name: "build.ninja".into(),
+            headers: vec![],
+            reports: BTreeMap::new(),
+            report_options: vec![],
+            restat_like: vec![],
+            targets: vec![vec!["x".into()]],
+            fail_cmds: vec!["X".into()],
+            generator: false,
+            removable_sources: vec![],
+            variant_reports: BTreeMap::new(),
+            skip_outputs: vec![],
+            side_touch: BTreeMap::new(),
+        });
+    }
+
     // 5. response file
     {
         let mk = |content: &str, path: &str| {
@@ -424,10 +483,10 @@ pub fn templates() -> Vec<Template> {
 /// Which templates a property's check walks.
 pub fn jobs(prop: &str, tier: Tier) -> Vec<(String, u64)> {
     let names: Vec<&str> = match prop {
-        "C02" | "C03" if tier == Tier::Quick => vec!["depfile-chain", "diamond", "two-outputs", "generated-header", "rspfile", "restat-upstream", "two-objects", "self-touch", "generator-split"],
-        "C02" | "C03" => vec!["depfile-chain", "msvc-chain", "diamond", "two-outputs", "generated-header", "rspfile", "restat-upstream", "two-objects", "self-touch", "generator", "generator-f", "generator-split"],
+        "C02" | "C03" if tier == Tier::Quick => vec!["depfile-chain", "diamond", "two-outputs", "two-by-two", "generated-header", "two-generated-headers", "rspfile", "restat-upstream", "two-objects", "self-touch", "generator-split"],
+        "C02" | "C03" => vec!["depfile-chain", "msvc-chain", "diamond", "two-outputs", "two-by-two", "generated-header", "two-generated-headers", "rspfile", "restat-upstream", "two-objects", "self-touch", "generator", "generator-f", "generator-split"],
         "C08" => vec!["depfile-chain", "two-outputs", "rspfile", "diamond"],
-        "C09" => vec!["depfile-chain", "msvc-chain", "generated-header", "two-outputs", "two-objects", "self-touch"],
+        "C09" => vec!["depfile-chain", "msvc-chain", "generated-header", "two-generated-headers", "two-outputs", "two-objects", "self-touch"],
         "C17" => vec!["generator", "generator-f", "generator-split"],
         "C19" => vec!["depfile-chain", "generator"],
         "C15" => vec!["depfile-chain"],
